@@ -172,7 +172,22 @@ func (fc *FnCtx) oblige(kind string, goal Term, text string, tags []string, labe
 	o := &Obligation{Name: name, Func: fc.key, Kind: kind, Tags: tags, Label: label, Goal: implies(fc.reach, goal), LogLen: len(fc.log), Pos: p, Text: text}
 	fc.blockSlice(o)
 	fc.obls = append(fc.obls, o)
+	if len(noAssumeKeys) > 0 && noAssumeKeys[clauseKey(o)] {
+		return // a clause that is not claimed (never discharged at baseline) is asserted but not assumed afterwards
+	}
 	fc.assume(goal)
+}
+
+// noAssumeKeys: clause keys whose obligations are asserted but NOT assumed afterwards. Assert-then-assume is sound when every
+// obligation is discharged; with a claimed subset, a claimed clause must not rest on an unclaimed one, so the unclaimed clauses
+// (baseline entries that never discharged, never_claim.txt) are left out of the assumptions, including at loop heads.
+var noAssumeKeys = map[string]bool{}
+
+func (fc *FnCtx) clauseNotAssumed(kind, text, label string) bool {
+	if len(noAssumeKeys) == 0 {
+		return false
+	}
+	return noAssumeKeys[clauseKey(&Obligation{Func: fc.key, Kind: kind, Label: label, Text: text, Pos: fc.pos()})]
 }
 
 // blockSlice: an obligation generated in block b needs only the facts generated in blocks that can reach b (and the unguarded
